@@ -99,16 +99,29 @@ package k8s
 //@ spec gotEff(n *v1.Node, i int) string
 //@ spec gotHasEsc(n *v1.Node) bool = exists i :: 0 <= i && i < gotLen(n) && gotKey(n, i) == ToBeRemovedByAutoscalerKey
 //@ spec gotEscAt(n *v1.Node, i int) bool = 0 <= i && i < gotLen(n) && gotKey(n, i) == ToBeRemovedByAutoscalerKey && (forall j :: 0 <= j && j < i ==> gotKey(n, j) != ToBeRemovedByAutoscalerKey)
+// getSeen[name]: a Get for this node name was issued (the write path fetches before it writes)
+//@ ghost getSeen [string]bool
 //@ iface k8s.io/client-go/kubernetes/typed/core/v1.NodeInterface.Get(c, ctx, name, opts) (n, err)
+//@   modifies getSeen
+//@   ensures getSeen == old(getSeen)[name := true]
 //@   ensures n == nil || fresh(n)
 //@   ensures n != nil ==> base(n.Spec.Taints) == nil || fresh(base(n.Spec.Taints))
 //@   ensures err == nil && n != nil ==> n.Name == name
 //@   ensures n != nil ==> gotLen(n) == len(n.Spec.Taints) && (forall i :: 0 <= i && i < gotLen(n) ==> gotKey(n, i) == n.Spec.Taints[i].Key && gotVal(n, i) == n.Spec.Taints[i].Value && gotEff(n, i) == n.Spec.Taints[i].Effect)
 
 // Update: one event; may fail arbitrarily; never touches the object sent.
+// nTaintOK / nUntaintOK count the successful updates that sent a fetched object with the escalator
+// taint newly on it / with fewer taints than fetched and the escalator taint among the fetched ones.
+//@ ghost nTaintOK int
+//@ ghost nUntaintOK int
 //@ iface k8s.io/client-go/kubernetes/typed/core/v1.NodeInterface.Update(c, ctx, node, opts) (r, err)
 //@   requires node != nil
-//@   modifies Jlen, Jkind, Jname, Jnode, Jok, Jesc
+//@   modifies Jlen, Jkind, Jname, Jnode, Jok, Jesc, nTaintOK, nUntaintOK
+//@   ensures [C03,C06,C07] nTaintOK == old(nTaintOK) || nTaintOK == old(nTaintOK) + 1
+//@   ensures [C03,C06,C07] nTaintOK == old(nTaintOK) + 1 <==> (err == nil && hasEsc(node) && !gotHasEsc(node))
+//@   ensures [C03,C06,C07] nUntaintOK == old(nUntaintOK) || nUntaintOK == old(nUntaintOK) + 1
+//@   ensures [C03,C06,C07] nUntaintOK == old(nUntaintOK) + 1 <==> (err == nil && gotHasEsc(node) && len(node.Spec.Taints) < gotLen(node))
+//@   ensures err == nil ==> r != nil
 //@   ensures Jlen == old(Jlen) + 1
 //@   ensures Jkind == old(Jkind)[old(Jlen) := K_UPDATE] && Jname == old(Jname)[old(Jlen) := node.Name] && Jnode == old(Jnode)[old(Jlen) := node]
 //@   ensures Jok == old(Jok)[old(Jlen) := err == nil] && Jesc == old(Jesc)[old(Jlen) := hasEsc(node)]
@@ -134,12 +147,12 @@ package k8s
 //@   modifies Jlen, Jkind, Jname, Jok
 //@   ensures [C01,C09,C10,C11,C19] old(Jlen) <= Jlen && Jlen <= old(Jlen) + len(nodes)
 //@   ensures [C01,C09,C10,C11,C19] forall k :: old(Jlen) <= k && k < Jlen ==> Jkind[k] == K_DELETE && Jname[k] == nodes[k - old(Jlen)].Name
-//@   ensures [C01,C09,C10,C11,C19] forall k :: 0 <= k && k < old(Jlen) ==> Jkind[k] == old(Jkind)[k] && Jname[k] == old(Jname)[k] && Jok[k] == old(Jok)[k]
+//@   ensures [C01,C09,C10,C11,C19] forall k :: k < old(Jlen) ==> Jkind[k] == old(Jkind)[k] && Jname[k] == old(Jname)[k] && Jok[k] == old(Jok)[k]
 //@   ensures [C19] err == nil ==> Jlen == old(Jlen) + len(nodes)
 //@ loop #0
 //@   invariant Jlen == old(Jlen) + #i
 //@   invariant forall k :: old(Jlen) <= k && k < Jlen ==> Jkind[k] == K_DELETE && Jname[k] == nodes[k - old(Jlen)].Name
-//@   invariant forall k :: 0 <= k && k < old(Jlen) ==> Jkind[k] == old(Jkind)[k] && Jname[k] == old(Jname)[k] && Jok[k] == old(Jok)[k]
+//@   invariant forall k :: k < old(Jlen) ==> Jkind[k] == old(Jkind)[k] && Jname[k] == old(Jname)[k] && Jok[k] == old(Jok)[k]
 
 // ---------------------------------------------------------------- taint.go: writes
 
@@ -163,11 +176,15 @@ package k8s
 // plus exactly one new one; nothing else of any Node is written.
 //@ func AddToBeRemovedTaint(node, client, taintEffect) (r, err)
 //@   requires node != nil && client != nil
-//@   modifies Jlen, Jkind, Jname, Jnode, Jok, Jesc, clock
+//@   modifies Jlen, Jkind, Jname, Jnode, Jok, Jesc, clock, nTaintOK, nUntaintOK, getSeen
+//@   ensures getSeen == old(getSeen)[node.Name := true]
+//@   ensures [C03,C06,C07] nUntaintOK == old(nUntaintOK) && old(nTaintOK) <= nTaintOK && nTaintOK <= old(nTaintOK) + 1
+//@   ensures [C03,C06,C07] nTaintOK == old(nTaintOK) + 1 ==> err == nil && Jlen == old(Jlen) + 1
+//@   ensures [C03,C06,C07] err != nil ==> nTaintOK == old(nTaintOK)
 //@   onlywrites [C15] "^H:(v1|metav1)\\." : "^H:v1\\.NodeSpec\\.Taints\\.|^H:v1\\.Taint\\."
 //@   ensures clock >= old(clock)
 //@   ensures old(Jlen) <= Jlen && Jlen <= old(Jlen) + 1
-//@   ensures forall k :: 0 <= k && k < old(Jlen) ==> Jkind[k] == old(Jkind)[k] && Jname[k] == old(Jname)[k] && Jok[k] == old(Jok)[k] && Jnode[k] == old(Jnode)[k] && Jesc[k] == old(Jesc)[k]
+//@   ensures forall k :: k < old(Jlen) ==> Jkind[k] == old(Jkind)[k] && Jname[k] == old(Jname)[k] && Jok[k] == old(Jok)[k] && Jnode[k] == old(Jnode)[k] && Jesc[k] == old(Jesc)[k]
 //@   ensures Jlen == old(Jlen) + 1 ==> Jkind[old(Jlen)] == K_UPDATE && Jname[old(Jlen)] == node.Name && Jesc[old(Jlen)] && fresh(Jnode[old(Jlen)])
 //@   ensures err == nil ==> r != nil
 //@   ensures [C15] Jlen == old(Jlen) + 1 ==> !gotHasEsc(Jnode[old(Jlen)])
@@ -184,10 +201,14 @@ package k8s
 // that taint is gone and every other one is kept; nothing else of any Node is written.
 //@ func DeleteToBeRemovedTaint(node, client) (r, err)
 //@   requires node != nil && client != nil
-//@   modifies Jlen, Jkind, Jname, Jnode, Jok, Jesc
+//@   modifies Jlen, Jkind, Jname, Jnode, Jok, Jesc, nTaintOK, nUntaintOK, getSeen
+//@   ensures getSeen == old(getSeen)[node.Name := true]
+//@   ensures [C03,C06,C07] nTaintOK == old(nTaintOK) && old(nUntaintOK) <= nUntaintOK && nUntaintOK <= old(nUntaintOK) + 1
+//@   ensures [C03,C06,C07] nUntaintOK == old(nUntaintOK) + 1 ==> err == nil && Jlen == old(Jlen) + 1
+//@   ensures [C03,C06,C07] err != nil ==> nUntaintOK == old(nUntaintOK)
 //@   onlywrites [C15] "^H:(v1|metav1)\\." : "^H:v1\\.NodeSpec\\.Taints\\.|^H:v1\\.Taint\\."
 //@   ensures old(Jlen) <= Jlen && Jlen <= old(Jlen) + 1
-//@   ensures forall k :: 0 <= k && k < old(Jlen) ==> Jkind[k] == old(Jkind)[k] && Jname[k] == old(Jname)[k] && Jok[k] == old(Jok)[k] && Jnode[k] == old(Jnode)[k] && Jesc[k] == old(Jesc)[k]
+//@   ensures forall k :: k < old(Jlen) ==> Jkind[k] == old(Jkind)[k] && Jname[k] == old(Jname)[k] && Jok[k] == old(Jok)[k] && Jnode[k] == old(Jnode)[k] && Jesc[k] == old(Jesc)[k]
 //@   ensures Jlen == old(Jlen) + 1 ==> Jkind[old(Jlen)] == K_UPDATE && Jname[old(Jlen)] == node.Name && fresh(Jnode[old(Jlen)])
 //@   ensures err == nil ==> r != nil
 //@   ensures [C15] Jlen == old(Jlen) + 1 ==> gotHasEsc(Jnode[old(Jlen)]) && len(addedTo(Jnode[old(Jlen)])) == gotLen(Jnode[old(Jlen)]) - 1
